@@ -212,7 +212,7 @@ type HTTPReq struct {
 	Headers map[string]string `json:"headers,omitempty"`
 	// gRPC request instead of HTTP (Method == "GRPC"): name of the rpc and a JSON rendering for the replay file
 	Grpc func(c *GrpcClients, ctx context.Context) error `json:"-"`
-	Note string                                         `json:"note,omitempty"`
+	Note string                                          `json:"note,omitempty"`
 }
 
 type HTTPRes struct {
